@@ -198,7 +198,7 @@ pub fn object_heavy(base: &Config, salt: u64) -> Config {
     let mut rng = Rng::new(salt);
     let steps = 10 + rng.below(50) as usize;
     // recipes: operand set-ups followed by the typed opcode that consumes them
-    const RECIPES: [&[&str]; 54] = [
+    const RECIPES: [&[&str]; 62] = [
         // containers that hold a float (NaN with saturated entropy) and are then stored into themselves
         &["MARK", "BINFLOAT", "LIST", "DUP", "APPEND"],
         &["MARK", "FLOAT", "LIST", "DUP", "TUPLE1", "APPEND"],
@@ -261,6 +261,16 @@ pub fn object_heavy(base: &Config, salt: u64) -> Config {
         &["EMPTY_TUPLE", "BINPUT", "DUP", "LONG_BINPUT", "POP", "BINPUT"],
         &["NONE", "MEMOIZE", "DUP", "TUPLE2", "MEMOIZE", "BINGET", "MEMOIZE", "BINPUT"],
         &["EMPTY_SET", "DUP", "MEMOIZE", "POP", "MARK", "NONE", "ADDITEMS", "MEMOIZE", "MEMOIZE"],
+        // a value that went through the memo must come back as the kind it had: typed opcodes on
+        // what GET pushes (frozenset is not a set, tuple is not a list, bytes is not a bytearray)
+        &["MARK", "FROZENSET", "MEMOIZE", "BINGET", "MARK", "NONE", "ADDITEMS"],
+        &["MARK", "NONE", "FROZENSET", "BINPUT", "POP", "BINGET", "MARK", "NONE", "ADDITEMS"],
+        &["MARK", "NONE", "TUPLE", "BINPUT", "BINGET", "NONE", "APPEND"],
+        &["EMPTY_TUPLE", "PUT", "POP", "GET", "MARK", "NONE", "APPENDS"],
+        &["MARK", "NONE", "NONE", "DICT", "MEMOIZE", "POP", "BINGET", "NONE", "NONE", "SETITEM"],
+        &["SHORT_BINBYTES", "MEMOIZE", "BINGET", "READONLY_BUFFER"],
+        &["SHORT_BINBYTES", "DUP", "STACK_GLOBAL"],
+        &["BINBYTES", "SHORT_BINBYTES", "STACK_GLOBAL", "EMPTY_TUPLE", "REDUCE"],
     ];
     let mut queue: Vec<u8> = Vec::new();
     // a third of the cases draw their arguments from saturated (all-0xFF) entropy: NaN floats, -1 ints
